@@ -24,6 +24,20 @@ type T struct {
 	PS *string
 }
 
+// Mid nests a struct value and a struct pointer below a map entry.
+type Mid struct {
+	In Inner
+	P  *Inner
+}
+
+// SM: maps whose values are structs, struct pointers, structs holding structs. Paths into it are walked to
+// length 4 so that a field of a struct inside a map entry (MM.k.In.S) is reachable.
+type SM struct {
+	MI map[string]Inner
+	MP map[string]*Inner
+	MM map[string]Mid
+}
+
 var (
 	anyType = reflect.TypeOf((*any)(nil)).Elem()
 	strType = reflect.TypeOf("")
@@ -32,12 +46,26 @@ var (
 // root type names, in enumeration order (simplest interplay first)
 var rootNames = []string{"T", "PT", "MSA", "MSS", "ANY"}
 
+// allRoots adds the struct-valued-map family; it takes part in the single mappings and in its own sets.
+var allRoots = []string{"T", "PT", "MSA", "MSS", "ANY", "SM"}
+
+const smLen = 4
+
+// lenFor: how deep paths of a root type are walked.
+func lenFor(typ string, maxLen int) int {
+	if typ == "SM" && maxLen < smLen {
+		return smLen
+	}
+	return maxLen
+}
+
 var rootTypes = map[string]reflect.Type{
 	"T":   reflect.TypeOf(T{}),
 	"PT":  reflect.TypeOf(&T{}),
 	"MSA": reflect.TypeOf(map[string]any{}),
 	"MSS": reflect.TypeOf(map[string]string{}),
 	"ANY": anyType,
+	"SM":  reflect.TypeOf(SM{}),
 }
 
 func sp(s string) *string { return &s }
@@ -146,6 +174,37 @@ func init() {
 		{"t", func() any { return tFull() }},
 		{"mss", func() any { return map[string]string{"k": "a", "j": "b"} }},
 		{"int", func() any { return 5 }},
+	}
+}
+
+func smFull() SM {
+	return SM{
+		MI: map[string]Inner{"k": {S: "iks", N: 1, M: map[string]any{"k": "ikm", "j": "ijm"}}, "j": {S: "ijs", N: 2}},
+		MP: map[string]*Inner{"k": {S: "pks", N: 3, M: map[string]any{"k": "pkm"}}, "j": {S: "pjs", N: 4}},
+		MM: map[string]Mid{"k": {In: Inner{S: "mkis", N: 5, M: map[string]any{"k": "mkim"}}, P: &Inner{S: "mkps", N: 6}}, "j": {In: Inner{S: "mjis", N: 7}}},
+	}
+}
+
+func init() {
+	valuesOf["SM"] = []valGen{
+		{"full", func() any { return smFull() }},
+		// key k absent everywhere
+		{"nok", func() any {
+			v := smFull()
+			delete(v.MI, "k")
+			delete(v.MP, "k")
+			delete(v.MM, "k")
+			return v
+		}},
+		{"zero", func() any { return SM{} }},
+		// nil pointer entries, nil pointer inside a struct entry, wrong leaf type behind any inside an entry
+		{"nilE", func() any {
+			v := smFull()
+			v.MP["k"] = nil
+			v.MM["k"] = Mid{In: Inner{S: "mkis"}}
+			v.MI["k"] = Inner{S: "iks", M: map[string]any{"k": 5}}
+			return v
+		}},
 	}
 }
 
